@@ -299,12 +299,34 @@ example :
      | .ok f => Proofs.ModfileFmtDir.wellFormedB f
      | .error _ => false) = true ∧ Proofs.ModfileFmtMain.eolComments x = [] := by decide +kernel
 
-/-- non-vacuity (with the stub fixer): accepted, well-formed, no retraction -/
-example :
-    let x := B "module example.com/m\nrequire a.b/c latest\nreplace a.b/c v1 => d.e/f master\n"
-    (match parseToFile (B "go.mod") x (some fixStub) true with
-     | .ok f => Proofs.ModfileFmtDir.wellFormedB f && f.retract.isEmpty
-     | .error _ => false) = true ∧ Proofs.ModfileFmtMain.eolComments x = [] := by decide +kernel
+/-- a fixer that satisfies the hypotheses: canonicalise valid versions, reject everything else -/
+def canonFix : Fixer := fun _ v => if Semver.isValid v then .ok (Semver.canonicalVersion v) else .error .plain
+
+/-- non-vacuity (with a fixer): `canonFix` is idempotent on its image and never returns the empty string; a
+    file is accepted with it as a well-formed file without retraction and without end-of-line comments -/
+example : Proofs.ModfileFmtDir.FixOK (some canonFix) ∧ Proofs.ModfileFmtDir.FixNE (some canonFix) ∧
+    (let x := B "module example.com/m\nrequire a.b/c v1\nreplace a.b/c v1 => d.e/f v2.0\n"
+     (match parseToFile (B "go.mod") x (some canonFix) true with
+      | .ok f => Proofs.ModfileFmtDir.wellFormedB f && f.retract.isEmpty
+      | .error _ => false) = true ∧ Proofs.ModfileFmtMain.eolComments x = []) := by
+  refine ⟨Or.inr ⟨canonFix, rfl, ?_⟩, ?_, by decide +kernel⟩
+  · intro p v w h
+    unfold canonFix at h ⊢
+    split at h
+    · rename_i hv
+      simp only [Except.ok.injEq] at h
+      subst h
+      simp [Proofs.ModfileFmtFix.canonicalVersion_valid hv, Proofs.ModfileFmtFix.canonicalVersion_idem]
+    · cases h
+  · intro fx hfx p v h
+    simp only [Option.some.injEq] at hfx
+    subst hfx
+    unfold canonFix at h
+    split at h
+    · rename_i hv
+      simp only [Except.ok.injEq] at h
+      exact (Proofs.ModfileFmtFix.canonicalVersion_ne_nil_iff v).2 hv h
+    · cases h
 
 /-! ### A violation of the idempotence clause (finding) -/
 
